@@ -20,7 +20,8 @@ def _exes(ctx):
             ctx.compile('hk-shm', 'termdet-preready', SRC, engine='cosched', cflags=['-DLEG=2']))
 def _known():
     import vlib
-    return any(f.get('id') == KF_ID for f in vlib.known_findings())
+    # recorded-but-not-repaired entries only; a 'fixed' entry means the tree must simply pass
+    return any(f.get('id') == KF_ID and 'fix' not in json.dumps(f).lower() for f in vlib.known_findings())
 def check(ctx):
     e1, e2 = _exes(ctx)
     legs = os.environ.get('C10_LEGS', 'contract,preready').split(',')
